@@ -68,7 +68,7 @@ def _event(args):
     idx, seed, opts = args
     rng = random.Random((seed * 104729 + idx * 7 + opts.get("salt", 0)) & 0xFFFFFFFF)
     na_cols = opts.get("na_cols", ())
-    w = gen.gen_world(rng, nmin=opts.get("nmin", 3), nmax=opts.get("nmax", 20), na_rate=opts.get("na_rate", 0.0), na_cols=na_cols)
+    w = gen.gen_world(rng, nmin=opts.get("nmin", 3), nmax=opts.get("nmax", 20), na_rate=opts.get("na_rate", 0.0), na_cols=na_cols, quarters=opts.get("quarters", False))
     resp = rng.choice(opts.get("resps", ["y"]))
     text, used, struct = gen.gen_formula(rng, groups=opts.get("groups", True), max_terms=opts.get("max_terms", 4), resp=resp, hier=opts.get("hier", 0.85))
     policy = rng.choice(opts.get("policies", ["drop"]))
